@@ -1317,7 +1317,7 @@ pub fn table() -> Vec<Spec> {
         // w1e: every bitmap-creating constructor of MmapRegion hands the builder B::with_len(<mapping size>)
         for f in ["new", "from_file", "build", "build_raw"] {
             let name: &'static str = Box::leak(format!("region_{}_bitmap", f).into_boxed_str());
-            let mut s = base("MmapUnix", "MmapUnixCtor", "src/mmap/unix.rs", name, f, Loc::Impl { ty: "MmapRegion", tr: None, f });
+            let mut s = base("MmapUnix", name, "src/mmap/unix.rs", name, f, Loc::Impl { ty: "MmapRegion", tr: None, f }); // (a group of its own: `MmapRegionBuilder::new` must not resolve to the kernel of `MmapRegion::new`)
             s.type_params = vec!["BM"];
             s.canon_params = match f { "new" => vec!["size"], "from_file" => vec!["file_offset", "size"], "build" => vec!["file_offset", "size", "prot", "flags"], _ => vec!["addr", "size", "prot", "flags"] };
             s.drop_params = vec!["file_offset", "addr", "prot", "flags"];
